@@ -452,6 +452,9 @@ class Interp(object):
     """The evaluator.  Rules subclass it and override the `on_*` hooks."""
 
     LIST_CAP = 4096
+    # generator functions called in expression context hand out the list of what they yield (rules that read `yield` events of the
+    # function they fold themselves - the stream scanner - switch this off)
+    EAGER_GENERATORS = True
     MAX_DEPTH = 14
     MAX_PATHS = 40000
     MAX_STEPS = 200000
@@ -1414,6 +1417,17 @@ class Interp(object):
             if not self.should_inline(callee.fi, frame):
                 self.path.unknown.append(text)
                 return Top('call:' + callee.fi.qualname)
+            if self.EAGER_GENERATORS and self._is_generator_function(callee.fi) and not any('contextmanager' in d for d in callee.fi.decorators):
+                # a generator function called where its values are wanted (a comprehension, enumerate(), list(), next()): the values it
+                # yields, collected (a `for` statement over the call is interleaved instead, see for_over_generator)
+                handlers = self.__dict__.setdefault('_yield_handlers', [])
+                got = GenList()
+                handlers.append(got.append)
+                try:
+                    self.call_function(callee.fi, a, kwargs, node, frame)
+                finally:
+                    handlers.pop()
+                return got
             return self.call_function(callee.fi, a, kwargs, node, frame)
         if isinstance(callee, NativeMethod):
             return callee.recv.call_method(callee.name, args, kwargs, self, frame, node)
